@@ -108,6 +108,46 @@ def run_contract(rep, timeout, out_kind):
                 rep.violation('%s [%s]' % (ob['name'], tag), fn, ob['name'], dict(kind='patterns', model=str(res['model'])[:300]), str(res['model'])[:600], *native(dict(kind='patterns')))
     return len(paths)
 
+def check_contract(rep, timeout):
+    """history: Synchronizer.check() -- the dry run on a few traces -- whatever the user function does on them and whether check() returns
+    or re-raises (catch_exceptions=False), leaves the counters, the single-use guard and the output untouched, so that run() afterwards starts
+    from the state __init__ built (frame condition of check; the run contract above starts from that state)."""
+    ld = L.Loader(); mod = ld.load(MOD); E = ld.extra['estraces']
+    fn = MOD + '::Synchronizer.check'
+    rep.function(fn, ld.fn_hash.get(fn))
+    npaths = 0; raised = 0
+    for catch in (True, False):
+        def body():
+            n = core.sym_int('n', 1)
+            ths = E.TraceHeaderSet('IN', n, 30, 'float32', {'plaintext': (16, 'uint8')})
+            calls = []
+            def user_function(trace_object, **kw):
+                c = core.sym_int('choice!%d' % len(calls), 0, 2); calls.append(trace_object)
+                if bool(c == 0): return ['DATA-OF-CALL', len(calls)]
+                if bool(c == 1): return None
+                raise UserError('rejected')
+            s = mod.Synchronizer(ths, 'out.ets', user_function, overwrite=True)
+            before = dict(vars(s)); wr = s.output; written0 = list(wr.written); closed0 = wr.closed
+            L.set_task()
+            exc = None; res = None
+            try: res = s.check(nb_traces=2, catch_exceptions=catch)
+            except (UserError, mod.SynchronizerError) as e: exc = e
+            after = vars(s)
+            same = set(after) == set(before) and all(after[k] is before[k] or (isinstance(after[k], int) and after[k] == before[k]) for k in before)
+            return same and wr.written == written0 and wr.closed == closed0, exc, len(calls)
+        for p, outc, exc in core.explore(body):
+            npaths += 1; tag = 'catch_exceptions=%s,path%d' % (catch, npaths)
+            if exc is not None:
+                rep.obligation('check[%s]' % tag, fn, 'post', dict(result='sat', backend='exec', secs=0), sample=repr(exc))
+                rep.violation('check[%s]' % tag, fn, 'check() raises %r' % (exc,), dict(kind='check_then_run'), None, *native(dict(kind='check_then_run'))); continue
+            same, e, ncalls = outc
+            raised += e is not None
+            ok = same and (catch is False or e is None)
+            rep.obligation('frame[check,%s]: counters, single-use guard and output untouched whether check() returns or re-raises' % tag, fn, 'frame', dict(result='unsat' if ok else 'sat', backend='frame-scan', secs=0))
+            if not ok:
+                rep.violation('frame[check,%s]' % tag, fn, 'check() changes the state run() starts from (or raises although exceptions are to be caught)', dict(kind='check_then_run'), None, *native(dict(kind='check_then_run')))
+    rep.cover('check(): returning and re-raising outcomes explored', npaths >= 6 and raised >= 1)
+
 def main():
     ap = argparse.ArgumentParser(); ap.add_argument('--tier', default=os.environ.get('VERIF_TIER', 'quick')); ap.add_argument('--replay')
     a = ap.parse_args(); seed = int(os.environ.get('VERIF_SEED', '0'))
@@ -117,6 +157,7 @@ def main():
     R.prefetch_native('props.c20_native', ['bounded', str(seed), a.tier])      # the stand-in runs while the obligations are discharged
     npaths = 0
     for ok in ('str', 'Path'): npaths += run_contract(rep, timeout, ok)
+    check_contract(rep, timeout)
     rep.cover('all four user-function outcomes explored', npaths >= 8)
     rc, o, so, se = R.run_native('props.c20_native', ['bounded', str(seed), a.tier], timeout=1500)
     if o is None: rep.errors.append('native stand-in failed: %s %s' % (so[-400:], se[-900:]))
